@@ -6,14 +6,16 @@
      parse_rr_master_frame       open of the mastered image (or of any larger medium whose other chunks do not overlap)
                                  raises nothing, leaves the fragment nowhere, and returns graph_of dt s: every record with
                                  exactly the dr_entries / ce_entries RockRidge.new placed (link count and CE pointer as
-                                 patched, SL components as parsed), the version 1.12 / 1.09, rr_children, and the
+                                 patched, SL components as parsed), the writer's version, rr_children, and the
                                  continuation blocks tracked in walk order
      parse_rr_master             ... for the image itself
      parse_rr_rejects_nothing_valid   no raise statement of the Rock Ridge branch is reached
      parse_rr_master_run         the same for rr_run (rr_init v) ops
+     parse_rr_version            g_ver (graph_of dt s) = r_ver s: the version of the opened ISO is the writer's, for 1.09,
+                                 1.10 and 1.12 (after the repairs 2755ef8 / 26337bc this model triggered)
      parse_rr_blocks_sound       every entry of the reconstructed pvd.rr_ce_blocks is the continuation area of a record of
                                  the tree, in the block with that record's extent
-   Refuted (ParseRRRefuted.v): the old XA probe, 1.10, RR_MOVED duplicates, block order. *)
+   Refuted (ParseRRRefuted.v): the old XA probe; byte-identity of later edits (block order after open). *)
 From Coq Require Import ZArith List Bool Lia ZifyBool.
 From PV.Base Require Import Prim.
 From PV.Gen Require Import GenConst GenFun.
@@ -83,6 +85,30 @@ Section Main.
     split; [exact Hm|]. rewrite (parse_rr_master _ Hm). split; [reflexivity|]. intros w. split; discriminate.
   Qed.
 
+  (* the Rock Ridge version of the opened ISO is the writer's (1.09, 1.10 and 1.12 alike) *)
+  Lemma prr_gwalk_ver : forall f items st, w_ver st = r_ver s ->
+    w_ver (prr_gwalk f (r_ver s) dt t L items st) = r_ver s.
+  Proof.
+    induction f as [|f IH]; intros items st H; [exact H|].
+    destruct items as [|[p [m len|m dl kids]] q]; cbn [prr_gwalk]; [exact H|apply IH; exact H|].
+    apply IH. unfold prr_spec_dir. destruct (mrr_dir_specs t L p) as [|xd [|xdd rest]]; [exact H|exact H|].
+    cbn [prr_end_dir w_ver]. rewrite (proj2 (proj2 (prr_spec_kids_fields dt s p kids 0 _))). reflexivity.
+  Qed.
+
+  Theorem parse_rr_version : g_ver (graph_of dt s) = r_ver s.
+  Proof.
+    destruct (mrr_wf_root dt s Hwf) as (_ & m & dl & kids & Et & _).
+    unfold graph_of. cbn [prr_graph g_ver].
+    assert (Hsz : exists f, prr_size s = S f) by (unfold prr_size; destruct (mrr_dtree [] t); cbn [tsize]; eexists; reflexivity).
+    destruct Hsz as [f ->].
+    replace [(@nil nat, t)] with [(@nil nat, RDir m dl kids)] by (rewrite Et; reflexivity).
+    cbn [prr_gwalk]. apply prr_gwalk_ver.
+    unfold prr_spec_dir. destruct (mrr_dir_specs t L []) as [|xd [|xdd rest]] eqn:Es.
+    - unfold mrr_dir_specs in Es. rewrite Et in Es. discriminate Es.
+    - unfold mrr_dir_specs in Es. rewrite Et in Es. discriminate Es.
+    - cbn [prr_end_dir w_ver]. rewrite (proj2 (proj2 (prr_spec_kids_fields dt s [] kids 0 _))). reflexivity.
+  Qed.
+
   (* what the reconstructed table holds comes from the records *)
   Theorem parse_rr_blocks_sound e o l : tbl_has (g_blocks (graph_of dt s)) e o l ->
     exists q c i, mrr_node_at t q = Some c /\ m_ce (meta_of c) = Some (i, o, l) /\ mrr_ce_ext t L i = e.
@@ -107,5 +133,6 @@ Qed.
 Print Assumptions parse_rr_master_frame.
 Print Assumptions parse_rr_master.
 Print Assumptions parse_rr_rejects_nothing_valid.
+Print Assumptions parse_rr_version.
 Print Assumptions parse_rr_blocks_sound.
 Print Assumptions parse_rr_master_run.
